@@ -205,7 +205,7 @@ func runCOMMIT(c *Ctx) {
 						}
 					}
 				}
-				if inRegion[ir.Outermost(fn)] || thinWrapper(c, fn) {
+				if inRegion[ir.Outermost(fn)] {
 					exit = "directly"
 					if g := calleeOrClosure(ci.Common()); g != nil && g.Blocks != nil && isOwn(P, g) && !inRegion[ir.Outermost(g)] {
 						// a one-call wrapper (`loadRoot(ctx)` = `m.load(ctx, m.root)`) is named by what it wraps
